@@ -7,8 +7,10 @@
 #include <bluetoe/server.hpp>
 #include <bluetoe/service.hpp>
 #include <bluetoe/characteristic.hpp>
+#include <bluetoe/descriptor.hpp>
 #include "replay_util.hpp"
 static std::uint8_t v;
+static const char name_a[] = "name"; static const std::uint8_t format[] = { 0x0E, 0xFE, 0x2F, 0x27, 0x01, 0x00, 0x00 };
 template < std::uint16_t U, typename ... O > using chr = bluetoe::characteristic< bluetoe::characteristic_uuid16< U >, bluetoe::bind_characteristic_value< std::uint8_t, &v >, O... >;
 template < class Server > static int check( const char* name )
 {
@@ -39,6 +41,32 @@ int main( int, char** )
                                     bluetoe::service< bluetoe::attribute_handle< 0x40 >, bluetoe::service_uuid16< 0x1803 >, chr< 0x1002, bluetoe::indicate >, chr< 0x1003 > > > >( "two services with fixed start handles" ) ) return 1;
     if ( check< bluetoe::server< G, bluetoe::service< bluetoe::service_uuid16< 0x1801 >, chr< 0x1000, bluetoe::attribute_handles< 0x20, 0x28, 0x30 >, bluetoe::notify >, chr< 0x1001, bluetoe::attribute_handle< 0x50 > >, chr< 0x1002 > > > >( "fixed declaration / value / CCCD handles" ) ) return 1;
     if ( check< bluetoe::server< G, bluetoe::service< bluetoe::service_uuid16< 0x1801 >, chr< 0x1000, bluetoe::attribute_handles< 0x20, 0x28 > >, chr< 0x1001 > >, bluetoe::service< bluetoe::service_uuid16< 0x1802 >, chr< 0x1002 > > > >( "fixed handles without CCCD, then defaults" ) ) return 1;
+    if ( check< bluetoe::server< G, bluetoe::service< bluetoe::service_uuid16< 0x1801 >, chr< 0x1000, bluetoe::attribute_handles< 0x100, 0x101, 0x110 >, bluetoe::characteristic_name< name_a >, bluetoe::descriptor< 0x2904, format, sizeof( format ) >, bluetoe::notify >,
+                                    chr< 0x1001 > > > >( "descriptors behind a CCCD with a fixed handle that does not follow the value" ) ) return 1;
+    {   // a service with an include declaration: consistent handles, and the include declaration names the real range of the included service
+        using inc_t = bluetoe::server< G, bluetoe::service< bluetoe::service_uuid16< 0x1111 >, bluetoe::include_service< bluetoe::service_uuid16< 0x2222 > >, chr< 0x1000 > >,
+                                          bluetoe::service< bluetoe::service_uuid16< 0x2222 >, bluetoe::is_secondary_service, chr< 0x1001 >, chr< 0x1002 > > >;
+        if ( check< inc_t >( "service with include_service<>, included secondary service" ) ) return 1;
+        struct conn_t : inc_t::connection_data { bluetoe::connection_security_attributes security_attributes() const { return bluetoe::connection_security_attributes(); } } cd;
+        inc_t srv; const std::uint8_t req[] = { 0x08, 0x01, 0x00, 0xff, 0xff, 0x02, 0x28 }; std::uint8_t out[ 23 ]; std::size_t n = sizeof( out );
+        srv.l2cap_input( req, sizeof( req ), out, n, cd );
+        using map = bluetoe::details::handle_index_mapping< inc_t >;
+        const std::size_t first = 4, last = inc_t::number_of_attributes - 1;   // the included service: attributes 4 .. 8
+        if ( !( n == 10 && out[ 0 ] == 0x09 && ( out[ 4 ] | out[ 5 ] << 8 ) == map::handle_by_index( first ) && ( out[ 6 ] | out[ 7 ] << 8 ) == map::handle_by_index( last ) ) ) {
+            std::printf( "REPRODUCED: include declaration names 0x%04x..0x%04x, the included service's attributes have the handles 0x%04x..0x%04x\n", out[ 4 ] | out[ 5 ] << 8, out[ 6 ] | out[ 7 ] << 8, map::handle_by_index( first ), map::handle_by_index( last ) ); return 1; }
+    }
+    {   // the included service behind a gap: attribute_handle< 0x20 >
+        using inc_t = bluetoe::server< G, bluetoe::service< bluetoe::service_uuid16< 0x1111 >, bluetoe::include_service< bluetoe::service_uuid16< 0x2222 > >, chr< 0x1000 > >,
+                                          bluetoe::service< bluetoe::attribute_handle< 0x20 >, bluetoe::service_uuid16< 0x2222 >, bluetoe::is_secondary_service, chr< 0x1001 > > >;
+        if ( check< inc_t >( "service with include_service<>, included service with a fixed handle" ) ) return 1;
+        struct conn_t : inc_t::connection_data { bluetoe::connection_security_attributes security_attributes() const { return bluetoe::connection_security_attributes(); } } cd;
+        inc_t srv; const std::uint8_t req[] = { 0x08, 0x01, 0x00, 0xff, 0xff, 0x02, 0x28 }; std::uint8_t out[ 23 ]; std::size_t n = sizeof( out );
+        srv.l2cap_input( req, sizeof( req ), out, n, cd );
+        using map = bluetoe::details::handle_index_mapping< inc_t >;
+        const std::size_t first = 4, last = inc_t::number_of_attributes - 1;
+        if ( !( n == 10 && out[ 0 ] == 0x09 && ( out[ 4 ] | out[ 5 ] << 8 ) == map::handle_by_index( first ) && ( out[ 6 ] | out[ 7 ] << 8 ) == map::handle_by_index( last ) && out[ 8 ] == 0x22 && out[ 9 ] == 0x22 ) ) {
+            std::printf( "REPRODUCED: included service at attribute_handle< 0x20 >: include declaration names 0x%04x..0x%04x, the included service's attributes have the handles 0x%04x..0x%04x\n", out[ 4 ] | out[ 5 ] << 8, out[ 6 ] | out[ 7 ] << 8, map::handle_by_index( first ), map::handle_by_index( last ) ); return 1; }
+    }
     std::printf( "not reproduced\n" );
     return 0;
 }
